@@ -72,7 +72,9 @@ def candidates(t):
         for i, k in enumerate(kids):
             if not (k[0] == "elem" and k[2] in ("html", "head", "body")) and k[0] != "doctype":
                 out.append(mk(kids[:i] + kids[i + 1:]))
-                if k[0] == "elem" and k[4]:
+                # (rt/rp are never hoisted out of their ruby: outside ruby the parser does not imply their end tags, so the
+                # smaller document would fail for a reason of its own that has nothing to do with the original failure)
+                if k[0] == "elem" and k[4] and not (k[2] == "ruby" and any(c[0] == "elem" and c[2] in ("rt", "rp") for c in k[4])):
                     out.append(mk(kids[:i] + k[4] + kids[i + 1:]))
                 if k[0] == "text" and len(k[1]) > 1:
                     h = len(k[1]) // 2
@@ -119,7 +121,121 @@ def names_in(t, acc):
     return acc
 
 
-def classify(doc, opts):
+KNOWN_OMISSIONS = ("p-end-omitted-before-end-of-a-like-parent", "body-start-omitted-before-meta-link-script-style-template")
+READER_RAW = {"script", "style", "xmp", "iframe", "noembed", "noframes"}     # raw text for a reader without scripting
+
+
+def t_bool(t, opts):
+    """recorded: minimize_boolean_attributes drops the value of an attribute listed in booleanAttributes"""
+    from html5lib.constants import booleanAttributes as BA
+    if t[0] in ("doc", "frag"):
+        return (t[0], [t_bool(k, opts) for k in t[1]])
+    if t[0] == "elem":
+        attrs = [(ns, n, "" if (n in BA.get(t[2], ()) or n in BA.get("", ())) else v) for ns, n, v in t[3]]
+        return ("elem", t[1], t[2], attrs, [t_bool(k, opts) for k in t[4]])
+    return t
+
+
+def t_escape(t, opts, raw=False):
+    """recorded: escape_rcdata=True escapes the text of raw-text elements, and the parser does not decode it there"""
+    from xml.sax.saxutils import escape
+    if t[0] in ("doc", "frag"):
+        return (t[0], [t_escape(k, opts) for k in t[1]])
+    if t[0] == "elem":
+        r = t[1] in (None, gen.HTML_NS) and t[2] in READER_RAW
+        return ("elem", t[1], t[2], t[3], [t_escape(k, opts, r) for k in t[4]])
+    if t[0] == "text" and raw:
+        return ("text", escape(t[1]))
+    return t
+
+
+def expected_modulo_recorded(a0, opts):
+    """[(class, tree)]: the conforming tree as the recorded option defects would hand it back (single defects first)"""
+    out = []
+    b = t_bool(a0, opts) if opts.get("minimize_boolean_attributes", True) else a0
+    e = t_escape(a0, opts) if opts.get("escape_rcdata") else a0
+    if b != a0:
+        out.append(("boolean-attribute-value-minimised", b))
+    if e != a0:
+        out.append(("escape-rcdata-option-alters-rawtext", e))
+    if b != a0 and e != a0:
+        out.append(("boolean-attribute-value-minimised", t_escape(b, opts)))
+    return out
+
+
+def same(x, y, opts):
+    return sort_attrs(x) == sort_attrs(y) if opts.get("alphabetical_attributes") else x == y
+
+
+def omission_repair(text, opts, encoding, kind):
+    """-> (class, re-parsed tree) when every tag that the optional-tags filter removed AGAINST the HTML syntax falls in ONE
+    of the recorded deviation classes of C13 (decided from the omitted token and the token that follows it); the tree is
+    the re-parse of the serialization in which exactly those tags are written again (all legal omissions stay).
+    None when nothing was omitted illegally or when some illegal omission is not a recorded one."""
+    import html5lib
+    from html5lib.serializer import HTMLSerializer
+    from html5lib.filters import alphabeticalattributes, optionaltags, whitespace
+    from props import C13
+    tb = html5lib.getTreeBuilder("etree", fullTree=True) if kind == "etree" else html5lib.getTreeBuilder("dom")
+    toks = list(html5lib.getTreeWalker(kind)(html5lib.HTMLParser(tree=tb).parse(text)))
+    if opts.get("alphabetical_attributes"):
+        toks = list(alphabeticalattributes.Filter(toks))
+    if opts.get("strip_whitespace"):
+        toks = list(whitespace.Filter(toks))
+    kept = {id(t) for t in optionaltags.Filter(toks)}
+    classes, restore = [], set()
+    for i, t in enumerate(toks):
+        if id(t) in kept:
+            continue
+        nxt = toks[i + 1] if i + 1 < len(toks) else None
+        if t["type"] == "StartTag":
+            legal, dev = C13.spec_start(t["name"], nxt), C13.dev_start(t["name"], nxt)
+        elif t["type"] == "EndTag":
+            legal, dev = C13.spec_end(t["name"], nxt), C13.dev_end(t["name"], nxt)
+        else:
+            return None
+        if legal:
+            continue
+        if dev not in KNOWN_OMISSIONS:
+            return None
+        classes.append(dev)
+        restore.add(id(t))
+    if not classes or len(set(classes)) != 1:
+        return None
+    o2 = {k: v for k, v in opts.items() if k not in ("omit_optional_tags", "alphabetical_attributes", "strip_whitespace")}
+    ser = HTMLSerializer(inject_meta_charset=False, omit_optional_tags=False, **o2)
+    out = ser.render([t for t in toks if id(t) in kept or id(t) in restore], encoding)
+    t1 = html5lib.HTMLParser(tree=tb).parse(out, **({"override_encoding": encoding} if encoding else {}))
+    return classes[0], abstract_of(t1, kind)
+
+
+def classify(doc, opts, encoding=None, kind="etree"):
+    """class of a MINIMAL failing conforming document.  A recorded class is returned only when the recorded defect explains
+    the whole difference between the conforming tree and the re-parsed one; otherwise a generic (not recorded) class."""
+    text = conf.render(doc)
+    try:
+        a0, out, serrs, a1, perrs = real_roundtrip(text, opts, encoding, kind)
+        variants = expected_modulo_recorded(a0, opts)
+        for cls, want in variants:
+            if same(want, a1, opts):
+                return cls
+        if opts.get("omit_optional_tags", True):
+            r = omission_repair(text, opts, encoding, kind)
+            if r is not None:
+                if same(a0, r[1], opts):
+                    return r[0]
+                for cls, want in variants:          # an illegal omission together with a recorded option defect
+                    if same(want, r[1], opts):
+                        return r[0]
+    except Exception:
+        pass
+    cls = classify_features(doc, opts)
+    known = KNOWN_OMISSIONS + ("boolean-attribute-value-minimised", "escape-rcdata-option-alters-rawtext")
+    return cls + ":not-explained-by-the-recorded-defect" if cls in known else cls
+
+
+def classify_features(doc, opts):
+    """descriptive label from the features of the minimal document (never used for a recorded class)"""
     from html5lib.constants import booleanAttributes as BA
     els = names_in(doc, [])
     if opts.get("minimize_boolean_attributes", True) and any(
@@ -158,7 +274,7 @@ def one(ctx, doc, opts, encoding, kind, reqs, reals, src):
     bad = (sort_attrs(a0) != sort_attrs(a1)) if opts.get("alphabetical_attributes") else (a0 != a1)
     if bad:
         small = shrink(doc, opts, encoding, kind)
-        ctx.fail(classify(small, opts), "parse(serialize(tree)) differs from the conforming tree",
+        ctx.fail(classify(small, opts, encoding, kind), "parse(serialize(tree)) differs from the conforming tree",
                  {"markup": conf.render(small)[:800], "options": opts, "encoding": encoding, "walker": kind,
                   "serialized": fails(conf.render(small), opts, encoding, kind)[2][:400] if True else ""})
     if encoding is None and kind == "etree" and not opts.get("strip_whitespace"):
@@ -175,7 +291,7 @@ def witness_case(ctx, w):
     bad, a0, out = fails(text, opts, None, "etree")
     if bad and a0 is not None:
         small = shrink(a0, opts, None, "etree")
-        ctx.fail(classify(small, opts), "parse(serialize(tree)) differs from the conforming tree", {"markup": text, "options": opts})
+        ctx.fail(classify(small, opts, None, "etree"), "parse(serialize(tree)) differs from the conforming tree", {"markup": text, "options": opts})
 
 
 def run(ctx):
